@@ -352,8 +352,31 @@ func modelOp(op string, a, b ref.Value) tri {
 		return modelEqual(a, b)
 	case "~":
 		if l, ok := b.(*ref.List); ok {
-			if _, isList := a.(*ref.List); isList {
-				return -1 // contains-all: checked separately
+			if la, isList := a.(*ref.List); isList {
+				// the list form: every item of a is found in l, each item of l serves once. The
+				// items of l are visited in order, the remaining items of a are tried in order, the
+				// first comparison that fails ends the search, and the search ends as soon as
+				// nothing is left to look for.
+				lookFor := append([]ref.Value{}, la.Items...)
+				if len(lookFor) == 0 {
+					return tTrue
+				}
+				for _, it := range l.Items {
+					for i, lf := range lookFor {
+						eq := modelEqual(lf, it)
+						if eq == tErr || eq == tIndet {
+							return -1 // which comparison fails first is an implementation detail
+						}
+						if eq == tTrue {
+							lookFor = append(lookFor[:i:i], lookFor[i+1:]...)
+							break
+						}
+					}
+					if len(lookFor) == 0 {
+						return tTrue
+					}
+				}
+				return tFalse
 			}
 			for _, it := range l.Items {
 				switch modelEqual(a, it) {
